@@ -11,6 +11,7 @@ import Librfn.Driver.Bintree
 import Librfn.Driver.PT
 import Librfn.Driver.HB
 import Librfn.Driver.Sched
+import Librfn.Driver.Console
 
 def main (args : List String) : IO UInt32 :=
   match args with
@@ -27,4 +28,5 @@ def main (args : List String) : IO UInt32 :=
   | "pt" :: rest => Librfn.Driver.PT.main rest
   | "hb" :: rest => Librfn.Driver.HB.main rest
   | "sched" :: rest => Librfn.Driver.Sched.main rest
+  | "console" :: rest => Librfn.Driver.Console.main rest
   | _ => do IO.eprintln "usage: librfn_model <engine> [args]"; return 2
